@@ -40,6 +40,27 @@ def ev_ops(stream, kind='s', t0=0, clock='arrival'):
     return [f'ev e{t0 + i} {ts(i)} {kind} {d}' for i, d in enumerate(stream)]
 
 
+def locks_left_held(rd):
+    """locks of the decider or of a run it holds that the calling thread still owns after the call returned (a lock taken
+    on a path that leaves through an exception and is released only on the normal one): harmless for this thread -- the
+    locks are re-entrant -- and the end of every other thread that needs the object."""
+    out = []
+    try:
+        objs = [rd.dec] + list(rd.dec.all_runs())
+    except Exception:   # noqa
+        objs = [rd.dec]
+    for o in objs:
+        for k, v in vars(o).items():
+            owned = getattr(v, '_is_owned', None)
+            if owned is not None and hasattr(v, 'acquire'):
+                try:
+                    if owned():
+                        out.append(f'{type(o).__name__}.{k}')
+                except Exception:   # noqa
+                    pass
+    return out
+
+
 def history_extremes(rd):
     """`first()` / `last()` of every history the decider holds: the events with the oldest / the most recent timestamp
     (docs: BoboHistory).  Returns a description of the first history that says otherwise, or None."""
@@ -76,6 +97,13 @@ def run_cases(ctx: Ctx, cases: Iterable[Case], res: Result,
         for k, op in enumerate(case.ops):
             o = rd.do(op)
             outs.append(o)
+            if bad is None:
+                held = locks_left_held(rd)
+                if held:
+                    res.violations.append(Violation('lock-left-held', f"after {op!r} (step {k}) the calling thread still owns {held}: "
+                                                    f"no other thread can use that object again", {**case.to_json(), 'failing_step': k}))
+                    bad = (k, o, o)
+                    rdec = None
             if bad is None and op.startswith('ev '):
                 hx = history_extremes(rd)
                 if hx is not None:
